@@ -38,6 +38,10 @@ def judge_tlc(ctx, case, res, mism):
         return
     if isinstance(res, core.MachineryErrorResult):
         raise core.MachineryError(res.msg)
+    if res["invalid"] and res["invalid"].startswith("onnxruntime cannot run"):
+        # DESIGN 2.3: a case the reference runtime refuses on the ORIGINAL model is discarded and counted (run() bounds the count)
+        ctx.add("original_not_runnable_on_onnxruntime")
+        return False
     if res["invalid"]:
         raise core.MachineryError(f"a model derived by Optimizer.tla is not a valid/executable ONNX model: {res['invalid']}\n{json.dumps(case['model'])[:800]}")
     if res["spec_eval"]:
@@ -118,6 +122,8 @@ def run(ctx: core.Ctx):
         if isinstance(res, dict) and len(ctx.coverage["samples"]) < 4 and case["log"]:
             ctx.sample({"model": optgen.describe(optgen.build_model(case["model"], optgen.outmeta(case)), 600), "spec_steps": case["log"],
                         "spec_final_ops": sorted(case["ops"]), "variants": [v["name"] for v in res["variants"]]})
+    if ctx.coverage.get("original_not_runnable_on_onnxruntime", 0) > max(3, len(pairs) // 100):
+        raise core.MachineryError(f"onnxruntime refuses {ctx.coverage['original_not_runnable_on_onnxruntime']} of {len(pairs)} derived models: the model derivation is off")
     for case, t in mism[:8]:
         print(f"SPEC-MISMATCH C03: {t}\n{optgen.describe(optgen.build_model(case['model'], optgen.outmeta(case)), 900)}", flush=True)
     ctx.set("model_impl_mismatches", len(mism))
